@@ -1202,6 +1202,47 @@ def part_d(ctx, cov, dist, rng, repo, only=None):
 
 # ------------------------------------------------------------------------------------- (f) xrcmd in a scripted world
 
+def xe_part(ctx, cov, dist, rng, exe, lbs):
+    """the text of a REFUSAL as xrcmd relays it (Exec/XrcmdErr.lean): replies `verdict text` with the first line ending
+    before, on and behind every boundary of the LINEBUFSIZE buffer, with and without a newline, more lines behind it.
+    impl vs model, and impl vs the specification: the first line of the server's text, whole when it fits the buffer
+    with its "\\n\\0", else a prefix of it that does -- never anything else"""
+    texts = []
+    for n_ in [0, 1, 2, 17, 200] + list(range(lbs - 6, lbs + 4)) + [lbs + 900, 2 * lbs - 100]:
+        n_ = min(n_, 3900)
+        body = bytes(rng.choice(b"abcdefghijklmnopqrstuvwxyz :.%/-") for _ in range(n_))
+        texts += [body, body + b"\n", body + b"\nsecond line\n", body[:n_ // 2] + b"\n" + body[n_ // 2:]]
+    texts += [b"\n", b"\n\n", b"Permission denied.\n", b"x" * 40 + b"\r\n"]
+    lines = ["xe " + hx(bytes([rng.choice([1, 1, 2, 255])]) + t) for t in texts]
+    lines += ["xe " + hx(b"\0"), "xe -"]
+    (ans, crash), = run_batch([exe], [lines], env=SAN_ENV, timeout=300)
+    if crash is not None:
+        k = len(ans)
+        ctx.offender("crash", "xrcmd.c aborts while relaying the server's refusal `%s`: %s" % (lines[k][:100] if k < len(lines) else "?",
+                                                                                          crash[-500:]),
+                     {"xe": lines[k] if k < len(lines) else None})
+        lines = lines[:k]
+    ml = ctx.model("rcmd", "".join(l + "\n" for l in lines), args=["model", "unchanged"]) if lines else []
+    dist["xe"] = len(lines)
+    for l, a, m in zip(lines, ans, ml):
+        cov["evaluations"] += 1
+        if a != m:
+            ctx.disagreement("xrcmd error text vs model", "impl `%s` model `%s`" % (a[:200], m[:200]), {"xe": l})
+        rb = bytes.fromhex(l.split()[1]) if l.split()[1] != "-" else b""
+        if rb[:1] in (b"", b"\0"):
+            if a != "err ~":
+                ctx.offender("xr:error-text", "a diagnostic with a server text although the server did not refuse: `%s`" % a[:120], {"xe": l})
+            continue
+        first = rb[1:].split(b"\n")[0]
+        got = None if a in ("err ~",) or not a.startswith("err ") else (b"" if a[4:] == "-" else bytes.fromhex(a[4:]))
+        ok = got is not None and got.endswith(b"\n") and first.startswith(got[:-1]) and len(got) + 1 <= lbs and \
+            (got[:-1] == first or len(first) + 2 > lbs)
+        if not ok:
+            dist.setdefault("offenders", {})["xr:error-text"] = dist.get("offenders", {}).get("xr:error-text", 0) + 1
+            ctx.offender("xr:error-text", "the server's refusal `%s...` (first line %d bytes) is relayed as `%s...` (%s bytes)" % (
+                first[:40], len(first), (got or b"")[:40], "?" if got is None else len(got)), {"xe": l})
+
+
 def part_f(ctx, cov, dist, rng, only=None):
     """the unmodified xrcmd.c in harness/xrcmd_harness.c: which reserved ports are busy, what every connect() answers,
     whether sleep() is interrupted, what xpoll()/accept() report and what the peer replies are the case; observed:
@@ -1291,6 +1332,8 @@ def part_f(ctx, cov, dist, rng, only=None):
                      {"xr": todo[k] if k < len(todo) else None})
         todo = todo[k + 1:]
     cases = done_cases
+    if only is None and not dist.get("offenders", {}).get("xr:error-reply-overflow"):
+        xe_part(ctx, cov, dist, rng, exe, lbs)
     ml = ctx.model("rcmd", "".join(c + "\n" for c in cases), args=["model", "unchanged"]) if cases else []
     obs = []
     for c, a in zip(cases, ans):
